@@ -14,8 +14,6 @@ from .ref import exact as X
 
 EPS = np.finfo(float).eps
 KAPPA14 = 1e13  # determinant ratios are compared for conditioning below this
-K14 = 3e4  # tolerance factor in units of eps*sqrt(kappa)*M (worst measured: 1.7e3)
-KCW = 2e3  # tolerance factor in units of eps*kappa*Mcw, Mcw = component-wise magnitude (worst measured: 26)
 K = 1e4  # tolerance factor in units of eps*kappa*T*M (worst measured on the unchanged tree: ~2e2)
 
 
@@ -192,13 +190,14 @@ class Driver:
                 sig_all = m.determinants(np.array(xn, float))
             M = self.formula_magnitude(k, xn)
             M = max(1.0, abs(ratio_f)) if M is None else max(M, abs(ratio_f), 1.0)
-            # M already grows with the norms of the balanced solutions, i.e. with the conditioning, so
-            # eps*kappa*M double-counts it for nearly degenerate sets: measured over 1600 histories (13
-            # decades of kappa) the error stays below 160*eps*sqrt(kappa)*M, and the tolerance is the
-            # smaller of the two bounds
             Mcw = max(getattr(self, "_m_cw", M), abs(ratio_f), 1.0)
-            # third bound, with the component-wise magnitude (worst measured: 26 in units of eps*kappa*Mcw)
-            tol = min(K * EPS * kap * M, K14 * EPS * math.sqrt(kap) * M, KCW * EPS * kap * Mcw)
+            # The only bound with an error analysis behind it is the norm-wise one, eps*kappa*M.  Two tighter
+            # empirical bounds (eps*sqrt(kappa)*M and a component-wise eps*kappa*Mcw) were used for a while; a
+            # later sweep produced an anisotropic set (two points 2.8e-9 apart in a set of diameter 2, kappa 1.2e9)
+            # on which the balanced solves are accurate to eps*kappa *in norm* as they should be, and the small
+            # components of the solution, hence the small ratios, are not: that is rounding scaled by
+            # conditioning, and the empirical bounds were withdrawn (DESIGN.md 8.4).  The ratios are still reported.
+            tol = K * EPS * kap * M
             self.counts["det"] += 1
             for name, got in (("one", sig_k), ("all", float(sig_all[k]))):
                 err = abs(got - ratio_f)
@@ -225,7 +224,7 @@ class Driver:
                         M2 = max(1.0, abs(r2)) if M2 is None else max(M2, abs(r2), 1.0)
                         self.out.ratio("C14.det_all/(eps*kappa*M)", err / (EPS * kap * M2))
                         self.out.ratio("C14.det_all/(eps*sqrt(kappa)*M)", err / (EPS * math.sqrt(kap) * M2))
-                        if not (err <= min(K * EPS * kap * M2, K14 * EPS * math.sqrt(kap) * M2)):
+                        if not (err <= K * EPS * kap * M2):
                             self.out.fail("C14.ratio.all", "determinants(x)[%d] = %r but the exact ratio is %r "
                                           "(kappa %.3g)" % (kk, float(sig_all[kk]), r2, kap), kappa=kap, ratio=r2)
         key = np.asarray(xn, float).tobytes()
